@@ -1,6 +1,8 @@
 package wpc02
 
 import (
+	"fmt"
+	"github.com/syndtr/goleveldb/leveldb"
 	"strings"
 	"testing"
 
@@ -56,5 +58,100 @@ func TestCursorOracleFires(t *testing.T) {
 	Run(rng.New(3), Sizes{States: 60, Moves: 20, MaxEntries: 14, MaxUniverse: 12}, s)
 	if len(sigs) != 0 {
 		t.Fatalf("violations on the real iterators: %v", sigs)
+	}
+}
+
+// ---- failing children (GoLevel/Props/C02Err.lean) ---------------------------------------------------
+
+func ikeyRaw(ukey []byte, num uint64) []byte {
+	k := append([]byte(nil), ukey...)
+	for i := 0; i < 8; i++ {
+		k = append(k, byte(num>>(8*uint(i))))
+	}
+	return k
+}
+
+// The decided run GoLevel.C02.nonstrict_skips_healthy_entry on the real mergedIterator: children [a,d] [b] [c,e]
+// (C02's merged example), child 1 fails at its movement number 1 with a corruption.  Non-strict: the Next after
+// three Prevs drops child 1, lands on c and steps over it — d is shown, c (healthy entry of a healthy child) is
+// skipped, Error() stays nil, the error callback was called once.  Strict: that Next reports the corruption.
+func TestNonStrictSkipsHealthyEntry(t *testing.T) {
+	icmp := leveldb.VerifIComparer(comparer.DefaultComparer)
+	a := kv{ikeyRaw([]byte{1}, 5), []byte{10}}
+	b := kv{ikeyRaw([]byte{2}, 7), []byte{20}}
+	c := kv{ikeyRaw([]byte{2}, 3), []byte{30}}
+	d := kv{ikeyRaw([]byte{3, 1}, 1), []byte{40}}
+	e := kv{ikeyRaw([]byte{4}, 9), []byte{}}
+	calls := []string{"last", "prev", "prev", "prev", "next", "next"}
+	run := func(strict bool) (vals []string, errs []string, nerrf int) {
+		its := []iterator.Iterator{
+			&failIter{Iterator: iterator.NewArrayIterator(&kvArray{[]kv{a, d}, icmp}), plan: failPlan{k: -1}},
+			&failIter{Iterator: iterator.NewArrayIterator(&kvArray{[]kv{b}, icmp}), plan: failPlan{k: 1, corrupt: true}},
+			&failIter{Iterator: iterator.NewArrayIterator(&kvArray{[]kv{c, e}, icmp}), plan: failPlan{k: -1}},
+		}
+		mi := iterator.NewMergedIterator(its, icmp, strict)
+		mi.(iterator.ErrorCallbackSetter).SetErrorCallback(func(error) { nerrf++ })
+		for _, cl := range calls {
+			ok := apply(mi, move{m: cl})
+			if ok {
+				vals = append(vals, fmt.Sprint(mi.Value()))
+			} else {
+				vals = append(vals, "-")
+			}
+			errs = append(errs, errClass(mi.Error()))
+		}
+		mi.Release()
+		return
+	}
+	vals, errs, nerrf := run(false)
+	if got, want := strings.Join(vals, " "), "[] [40] [30] [20] [40] []"; got != want {
+		t.Fatalf("non-strict values %q, the model says %q", got, want)
+	}
+	if got := strings.Join(errs, " "); got != "ok ok ok ok ok ok" || nerrf != 1 {
+		t.Fatalf("non-strict errors %q errf calls %d, the model says all ok and 1 call", got, nerrf)
+	}
+	vals, errs, _ = run(true)
+	if got, want := strings.Join(vals, " "), "[] [40] [30] [20] - -"; got != want {
+		t.Fatalf("strict values %q, the model says %q", got, want)
+	}
+	if got, want := strings.Join(errs, " "), "ok ok ok ok corrupted corrupted"; got != want {
+		t.Fatalf("strict errors %q, the model says %q", got, want)
+	}
+}
+
+// hideErr hides the error of a strict merged iterator: the error-walk oracle must notice that the answers stop
+// agreeing with the cursor while Error() is nil.
+type hideErr struct{ iterator.Iterator }
+
+func (h *hideErr) Error() error { return nil }
+
+func TestErrorOracleFires(t *testing.T) {
+	var sigs []string
+	s := wp.Discard()
+	s.Violate = func(sig, msg string, rp interface{}) { sigs = append(sigs, sig) }
+	g := &generator{s: s, sz: Sizes{States: 1, Moves: 40, MaxEntries: 14, MaxUniverse: 12}, nState: map[string]int{}}
+	icmp := leveldb.VerifIComparer(comparer.DefaultComparer)
+	var all []kv
+	for i := 0; i < 8; i++ {
+		all = append(all, kv{leveldb.VerifMakeInternalKey([]byte{byte('a' + i)}, 5, 1), []byte{byte(i)}})
+	}
+	mk := func() iterator.Iterator {
+		its := []iterator.Iterator{
+			&failIter{Iterator: iterator.NewArrayIterator(&kvArray{all[:4], icmp}), plan: failPlan{k: 3, corrupt: true}},
+			&failIter{Iterator: iterator.NewArrayIterator(&kvArray{all[4:], icmp}), plan: failPlan{k: -1}},
+		}
+		return iterator.NewMergedIterator(its, icmp, true)
+	}
+	r := rng.New(11)
+	seek := func() []byte { return all[r.Intn(len(all))].k }
+	ci := &caseInfo{site: "test", replay: map[string]interface{}{"state": "two children"}}
+	n := 0
+	g.walkErr(r, "test", ci, mk(), true, all, icmp.Compare, seek, &n)
+	if len(sigs) != 0 {
+		t.Fatalf("violations on the real strict iterator: %v", sigs)
+	}
+	g.walkErr(r, "test", ci, &hideErr{mk()}, true, all, icmp.Compare, seek, &n)
+	if len(sigs) == 0 {
+		t.Fatalf("an iterator that hides its error went unnoticed")
 	}
 }
